@@ -192,6 +192,7 @@ func (c *FnCtx) execInstr(fr *Frame, st *State, instr ssa.Instruction) {
 		o := c.obligation(st, "safe", "nilmap", "(not (= "+m.E+" 0))", i.Pos())
 		o.Desc = "assignment to entry in nil map"
 		c.assume(st, "(not (= "+m.E+" 0))")
+		c.onMapStep(fr, st, "store", m, k, &v, i.Pos())
 		c.eng.onMapWrite(c, st, m.E, i.Pos())
 		c.mapStore(st, mt, m.E, k.E, v.E)
 	case *ssa.Lookup:
@@ -282,7 +283,7 @@ func (c *FnCtx) execUnOp(fr *Frame, st *State, i *ssa.UnOp) {
 		v := c.load(st, l, i.Type())
 		v.T = i.Type()
 		c.afterGuardedLoad(st, l, &v, mu)
-		if l.Kind == locField && len(l.Path) == 1 {
+		if (l.Kind == locField || l.Kind == locLocal) && len(l.Path) == 1 {
 			if n, ok := l.RootT.(*types.Named); ok {
 				v.From = n.Obj().Name() + "." + l.RootT.Underlying().(*types.Struct).Field(l.Path[0]).Name()
 			}
